@@ -650,7 +650,7 @@ def _compare(case, before, after, stage, viol, text) -> bool:
             if member_logic:
                 wit = f"{stage}{trans} [{_context(case, key)}] via {entry}"
             elif tmpl in STRING_FORMS and trans.split(" -> ")[0] in TRAPS:
-                wit = f"string-valued parameter: {trans}"
+                wit = "string-valued parameter: " + re.sub(r"entity-\w+", "entity", trans)
             else:
                 wit = f"{stage}{tmpl} via {entry}: {trans}"
             viol.append(
